@@ -364,6 +364,8 @@ R_<TG_, TA_>::replayTransitions(const Transition* const transitions,
 
 			return true;
 		}
+
+		_core.registry.clearRequests();
 	}
 
 	return false;
